@@ -28,6 +28,7 @@ from vf import core
 
 ID = 'C16'
 N = {'quick': 3000, 'thorough': 60000}
+BUDGET = {'quick': 600, 'thorough': 6000}       # seconds per shard; a slow tree is inconclusive, not a hang
 NT_RULE = ('case = one network (random: 2-12 species over 1-4 elements with generated NASA-7 '
            'coefficients, G/RT span <= 60 at each T, full-rank or rank-deficient formula matrix; or '
            'a subset of the pinned propane/steam thermdat) + feed containing every element + 1-3 '
@@ -708,7 +709,8 @@ def _run_one(ctx, spec, eq, order, species, T, P, A, b, bsum, g, mu0, ref, pbase
         if failed:
             return None
         # no value was reported although the solver did not report a failure
-        m2 = dict(mech, what='get_net_comp', exc=type(exc).__name__)
+        m2 = {'what': 'get_net_comp', 'exc': type(exc).__name__, 'network': pbase['network'],
+              'rank': pbase['rank'], 'solver_status': status, 'signalled': signalled}
         ctx.fail('Q1', m2, message=str(exc)[:300], where=core._tb_where(exc), **detail)
         return None
     # ---- result in spec order
@@ -720,9 +722,8 @@ def _run_one(ctx, spec, eq, order, species, T, P, A, b, bsum, g, mu0, ref, pbase
         ctx.fail('Q2', dict(mech, what='result_shape', exc=type(e).__name__), **detail)
         return None
     want_names = [species[i]['name'] for i in order]
-    ok = ctx.check('Q2', names == want_names and moles.shape == (ns,) and frac.shape == (ns,)
-                   and res.T == T and res.P == P, dict(mech, what='echo'), got=names, want=want_names,
-                   **detail)
+    ok = ctx.check('Q2', names == want_names and moles.shape == (ns,) and frac.shape == (ns,),
+                   dict(mech, what='species_echo'), got=names, want=want_names, **detail)
     if not ok:
         return None
     n = np.empty(ns)
